@@ -31,10 +31,15 @@ OGroups == OG1 \cup OG2
 PatternsO == { PAnd(<<PIns("m", <<g>>)>>) : g \in OGroups }
         \cup { PAnd(<<PIns("m", <<X, g>>)>>) : g \in OGroups }
         \cup { PAnd(<<PIns("m", <<g, Z>>), I("q")>>) : g \in OGroups }
+        \* two items of one rule whose operand groups have the same shape (one and two levels deep) and other leaves
+        \cup { PAnd(<<PIns("m", <<OOr(<<OAnd(<<X, Y>>), OAnd(<<Y, Z>>)>>)>>), PIns("m", <<OOr(<<OAnd(<<Z, X>>), OAnd(<<Y, Y>>)>>)>>)>>),
+               PAnd(<<PIns("m", <<OOr(<<OPerm(<<X, Y>>), OPerm(<<Z, Z>>)>>)>>), PIns("m", <<OOr(<<OPerm(<<Y, Z>>), OPerm(<<X, X>>)>>)>>)>>),
+               PAnd(<<PIns("m", <<OOr(<<X, Y>>), Z>>), PIns("m", <<OOr(<<Y, Z>>), Z>>)>>) }
 OpSeqs == SeqsBetween({"x", "y", "z"}, 0, 3)
 ListingsO == { WithAddrs(<< <<"m", o>> >>) : o \in OpSeqs }
         \cup { WithAddrs(<< <<"m", o>>, <<"q", <<>> >> >>) : o \in OpSeqs }
         \cup { WithAddrs(<< <<"m", o>>, <<"m", <<"z">> >> >>) : o \in SeqsBetween({"x", "y", "z"}, 1, 2) }
+        \cup { WithAddrs(<< <<"m", o1>>, <<"m", o2>> >>) : o1 \in SeqsBetween({"x", "y", "z"}, 2, 2), o2 \in SeqsBetween({"x", "y", "z"}, 2, 2) }
 
 \* ---- alternatives inside a $deref field ------------------------------------
 DField(n, fp) == Node("dfield", n, <<fp>>, 1, 1)
